@@ -59,6 +59,8 @@ static void futex_wake(volatile int *addr) { syscall(SYS_futex, addr, FUTEX_WAKE
 
 long exb_raw_write(int fd, const void *buf, size_t len) { return syscall(SYS_write, fd, buf, len); }
 long exb_raw_read(int fd, void *buf, size_t len) { return syscall(SYS_read, fd, buf, len); }
+long exb_raw_close(int fd) { return syscall(SYS_close, fd); }
+long exb_raw_socketpair(int domain, int type, int protocol, int *fds) { return syscall(SYS_socketpair, domain, type, protocol, fds); }
 int  exb_raw_poll(void *fds, unsigned long nfds)
 {
   struct timespec ts = { 0, 0 };
